@@ -112,6 +112,10 @@ def ifft(data, shift=True):
             res = np.fft.ifft2(
                 shifted,
                 axes=[data.dims.index('m'), data.dims.index('n')])
+        elif isinstance(data, xr.DataArray):
+            res = np.fft.ifft2(
+                data_np,
+                axes=[data.dims.index('m'), data.dims.index('n')])
         else:
             res = np.fft.ifft2(data_np)
 
